@@ -11,6 +11,7 @@ from tlcrun import LANE, LANE_DIR, REPO, SPEC, VERIF, WORK, cfg_text, run_tlc, t
 
 HARNESS_DIR = os.path.join(LANE_DIR, "harness") if LANE else os.path.join(VERIF, "harness")
 HARNESS_BIN = os.path.join(HARNESS_DIR, "target", "debug", "sighook-verif-harness")
+HARNESS_BIN_REL = os.path.join(HARNESS_DIR, "target", "relsem", "sighook-verif-harness")
 EVIDENCE = os.path.join(LANE_DIR, "evidence") if LANE else os.path.join(VERIF, "evidence")
 REPLAY = os.path.join(WORK, "replay")
 KNOWN = os.path.join(VERIF, "known-findings.json")
@@ -50,23 +51,29 @@ def build_harness():
     # signal-hook's build.rs compiles src/low_level/extract.c through the cc crate, whose
     # rerun-if-env-changed directives switch off cargo's default "any file of the package changed"
     # rule: an edit to extract.c alone would not be rebuilt. Drop that package's artefacts.
-    subprocess.run(["cargo", "clean", "--offline", "-p", "signal-hook"], cwd=HARNESS_DIR, env=env,
-                   stdout=subprocess.PIPE, stderr=subprocess.STDOUT, text=True)
-    p = subprocess.run(["cargo", "build", "--offline"], cwd=HARNESS_DIR, env=env,
-                       stdout=subprocess.PIPE, stderr=subprocess.STDOUT, text=True)
-    if p.returncode != 0:
-        tail = "\n".join(p.stdout.splitlines()[-40:])
-        raise ToolError("harness build failed:\n" + tail)
+    # two builds: the dev profile, and "relsem" (debug assertions and overflow checks off, as in a
+    # user's release build) for the sequential probes
+    for prof in ([], ["--profile", "relsem"]):
+        subprocess.run(["cargo", "clean", "--offline", "-p", "signal-hook"] + prof, cwd=HARNESS_DIR,
+                       env=env, stdout=subprocess.PIPE, stderr=subprocess.STDOUT, text=True)
+    procs = [subprocess.Popen(["cargo", "build", "--offline"] + prof, cwd=HARNESS_DIR, env=env,
+                              stdout=subprocess.PIPE, stderr=subprocess.STDOUT, text=True)
+             for prof in ([], ["--profile", "relsem"])]
+    for p in procs:
+        out, _ = p.communicate()
+        if p.returncode != 0:
+            tail = "\n".join(out.splitlines()[-40:])
+            raise ToolError("harness build failed:\n" + tail)
     return time.time() - t0
 
 
-def harness(*args, timeout=1800, check=True, env=None):
+def harness(*args, timeout=1800, check=True, env=None, rel=False):
     """Run the harness; returns (parsed last JSON line or None, full stdout, returncode)."""
     e = dict(os.environ)
     if env:
         e.update(env)
     try:
-        p = subprocess.run([HARNESS_BIN] + [str(a) for a in args], stdout=subprocess.PIPE,
+        p = subprocess.run([HARNESS_BIN_REL if rel else HARNESS_BIN] + [str(a) for a in args], stdout=subprocess.PIPE,
                            stderr=subprocess.PIPE, text=True, timeout=timeout, env=e,
                            errors="replace")
     except subprocess.TimeoutExpired:
@@ -252,7 +259,16 @@ class Check:
             dead = [a for a in expect if r.coverage.get(a, (0, 0))[1] == 0]
             entry["actions_covered"] = {a: r.coverage.get(a, (0, 0))[1] for a in expect}
             if dead:
-                raise ToolError("vacuous model check %s: actions never taken: %s" % (name, dead))
+                # With the constants of the unchanged code every listed action is taken (checked
+                # while building); an action that is never taken means the extracted step order
+                # describes code the model has no faithful reading of: no verdict from this model,
+                # the real schedules below decide.
+                if os.environ.get("VERIF_STRICT") == "1":
+                    raise ToolError("vacuous model check %s: actions never taken: %s" % (name, dead))
+                self.exhaustive = False
+                self.note("model check %s is vacuous for the extracted constants (actions never "
+                          "taken: %s): treated as stale, no verdict drawn from it" % (name, dead))
+                entry["ok"] = None
         log("  MC %-40s %s: %d distinct / %d generated, %.1fs%s" % (
             name, what, r.distinct, r.generated, r.wall,
             "" if r.ok else "  VIOLATED " + str(r.violation)))
